@@ -262,3 +262,101 @@ func (s opShape) describe() string {
 	}
 	return fmt.Sprintf("%s %s %s", l, s.op, r)
 }
+
+// ---------------------------------------------------------------------------------------------
+// R-DROPNAMESET: for which operators the metric name is dropped, against the reference's list.
+
+func init() {
+	mutant(Mutant{Rule: "R-DROPNAMESET", Name: "set-operator-added-to-the-table", File: "execution/binary/table.go",
+		Old: "\t\"atan2\": func(operands [2]float64, valueIdx int) (float64, bool) {", New: "\t\"unless\": func(operands [2]float64, valueIdx int) (float64, bool) { return operands[0], true },\n\t\"atan2\": func(operands [2]float64, valueIdx int) (float64, bool) {", Expect: "unless"})
+	register(&Rule{ID: "R-DROPNAMESET", Min: 10, Run: ruleDropNameSet,
+		Doc: "for every operator of the binary operator table, the decision to drop the metric name from the result agrees with the reference: the repository keeps the name exactly for comparison operators without bool (parser.ItemType.IsComparisonOperator, rule R-BOOLNAME), the reference drops it exactly for the tokens listed in shouldDropMetricName (and for bool comparisons); both lists are read from the pinned module"})
+}
+
+// returnTrueCases returns the identifiers listed in the case clauses of fn that return true.
+func returnTrueCases(fn ast.Node) map[string]bool {
+	out := map[string]bool{}
+	ast.Inspect(fn, func(n ast.Node) bool {
+		cc, ok := n.(*ast.CaseClause)
+		if !ok {
+			return true
+		}
+		ret := lastReturn(cc.Body)
+		if ret == nil || len(ret.Results) != 1 {
+			return true
+		}
+		if id, ok := ret.Results[0].(*ast.Ident); !ok || id.Name != "true" {
+			return true
+		}
+		for _, e := range cc.List {
+			switch x := e.(type) {
+			case *ast.Ident:
+				out[x.Name] = true
+			case *ast.SelectorExpr:
+				out[x.Sel.Name] = true
+			}
+		}
+		return true
+	})
+	return out
+}
+
+func ruleDropNameSet(p *core.Program) []core.Obligation {
+	const rule = "R-DROPNAMESET"
+	lost := func(what string) []core.Obligation {
+		return []core.Obligation{core.Ob(rule, "metric name decision per operator", "-", "", core.Lost, what)}
+	}
+	ref, prs := p.Deps[pkgPromqlRef], p.Deps[pkgParser]
+	rp := p.ByPath[core.Module+"/execution/binary"]
+	if ref == nil || prs == nil || rp == nil {
+		return lost("packages not loaded")
+	}
+	vocab, err := readParserVocab(p)
+	if err != nil {
+		return lost(err.Error())
+	}
+	dropFn, cmpFn := findRefBody(ref, "shouldDropMetricName"), findRefBody(prs, "ItemType.IsComparisonOperator")
+	if dropFn == nil || cmpFn == nil {
+		return lost("shouldDropMetricName / ItemType.IsComparisonOperator not found in the pinned module")
+	}
+	refDrops, isCmp := returnTrueCases(dropFn), returnTrueCases(cmpFn)
+	if len(refDrops) < 4 || len(isCmp) < 4 {
+		return lost("implausibly short case lists read from the pinned module")
+	}
+	// the repository's decision is the one R-BOOLNAME establishes: the name is kept iff IsComparisonOperator && !bool
+	usesCmp := false
+	for _, f := range rp.Syntax {
+		ast.Inspect(f, func(n ast.Node) bool {
+			if se, ok := n.(*ast.SelectorExpr); ok && se.Sel.Name == "IsComparisonOperator" {
+				usesCmp = true
+			}
+			return true
+		})
+	}
+	if !usesCmp {
+		return []core.Obligation{core.Ob(rule, "metric name decision per operator", "-", "", core.Undecided, "execution/binary no longer decides with ItemType.IsComparisonOperator: the rule must be re-validated against the new predicate")}
+	}
+	bySpelling := map[string]string{}
+	for _, tok := range vocab.operators {
+		if s, ok := vocab.tokenString[tok]; ok {
+			bySpelling[s] = tok
+		}
+	}
+	var obs []core.Obligation
+	for _, spelling := range mapLiteralStringKeys(rp, "operations") {
+		tok, ok := bySpelling[spelling]
+		if !ok {
+			continue
+		}
+		key := fmt.Sprintf("operator %q: the metric name is dropped exactly when the reference drops it", spelling)
+		repoDrops := !isCmp[tok] // without bool
+		refDrop := refDrops[tok]
+		switch {
+		case repoDrops == refDrop:
+			obs = append(obs, core.Ob(rule, key, "execution/binary/table.go", "operations", core.Held, fmt.Sprintf("both %s the name (parser.%s)", map[bool]string{true: "drop", false: "keep"}[refDrop], tok)))
+		default:
+			obs = append(obs, core.Ob(rule, key, "execution/binary/table.go", "operations", core.Violated, fmt.Sprintf("parser.%s: the reference's shouldDropMetricName %s the metric name, the repository %s it (it is not a comparison operator)", tok, map[bool]string{true: "drops", false: "keeps"}[refDrop], map[bool]string{true: "drops", false: "keeps"}[repoDrops])))
+		}
+	}
+	return obs
+}
